@@ -512,6 +512,250 @@ def gen_fieldtable():
     return text, info
 
 
+# ------------------------------------------------------------------------------------------------
+# statelessness of the operator classes (fail closed)
+#
+# The route-independence clause (eager = jit over a closure = filtering jit = round trip) presumes that
+# an operator's action is a function of its dataclass fields only.  Hidden per-object or per-process
+# state (functools.cached_property, lru_cache / cache, attributes written outside the constructor,
+# mutable class attributes) makes the result depend on the ORDER of the routes: a value cached during a
+# trace is a leaked tracer afterwards.  None exists in the tree the model was written against; any
+# appearance breaks the tie.
+
+def _unwrap_descriptor(v):
+    if isinstance(v, (staticmethod, classmethod)):
+        return v.__func__
+    if isinstance(v, property):
+        return v.fget
+    return v
+
+
+def _is_cache_object(v) -> str | None:
+    import functools
+
+    if isinstance(v, functools.cached_property):
+        return 'functools.cached_property'
+    f = _unwrap_descriptor(v)
+    seen = 0
+    while f is not None and seen < 8:  # through functools.wraps chains
+        if hasattr(f, 'cache_info') or hasattr(f, 'cache_clear'):
+            return 'lru_cache/cache wrapper'
+        f = getattr(f, '__wrapped__', None)
+        seen += 1
+    tname = type(v).__name__.lower()
+    if 'cache' in tname or 'memo' in tname or 'lazy' in tname:
+        return f'descriptor of type {type(v).__name__}'
+    return None
+
+
+def hidden_state_scan(ops) -> list[str]:
+    """Caches and mutable state reachable from the operator classes (class dicts along the furax part of
+    each MRO, methods writing attributes outside the constructor, caches at module level of the modules
+    that define operator classes)."""
+    out: list[str] = []
+    seen_classes, modules = [], []
+    for c in ops:
+        for k in c.__mro__:
+            if k in seen_classes or not is_furax(k):
+                continue
+            seen_classes.append(k)
+            if k.__module__ not in modules:
+                modules.append(k.__module__)
+            for name, v in vars(k).items():
+                if name.startswith('__') and name.endswith('__') or name == '_abc_impl':
+                    continue
+                what = _is_cache_object(v)
+                if what:
+                    out.append(f'{k.__name__}.{name}: {what}')
+                elif isinstance(v, (list, dict, set, bytearray)):
+                    out.append(f'{k.__name__}.{name}: mutable class attribute ({type(v).__name__})')
+            # attribute writes outside the constructor
+            try:
+                node = class_ast(k)
+            except Tie:
+                raise
+            for fn in [n for n in node.body if isinstance(n, (ast.FunctionDef, ast.AsyncFunctionDef))]:
+                if fn.name in ('__init__', '__post_init__', '__check_init__'):
+                    continue
+                for n in ast.walk(fn):
+                    txt = None
+                    if isinstance(n, ast.Call):
+                        f = ast.unparse(n.func)
+                        if f in ('object.__setattr__', 'setattr', 'object.__delattr__', 'delattr') and n.args and ast.unparse(n.args[0]) == 'self':
+                            txt = ast.unparse(n)
+                    elif isinstance(n, ast.Attribute) and n.attr == '__dict__' and isinstance(n.value, ast.Name) and n.value.id == 'self':
+                        txt = 'self.__dict__'
+                    elif isinstance(n, ast.Call) and ast.unparse(n.func) == 'vars' and n.args and ast.unparse(n.args[0]) == 'self':
+                        txt = 'vars(self)'
+                    elif isinstance(n, (ast.Assign, ast.AugAssign, ast.AnnAssign)):
+                        targets = n.targets if isinstance(n, ast.Assign) else [n.target]
+                        for t in targets:
+                            for sub in ast.walk(t):
+                                if is_self_attr(sub) is not None and isinstance(sub.ctx, ast.Store):
+                                    txt = ast.unparse(n)
+                    elif isinstance(n, (ast.Global, ast.Nonlocal)):
+                        txt = ast.unparse(n)
+                    if txt:
+                        out.append(f'{k.__name__}.{fn.name}: writes object/global state outside the constructor: {txt[:80]!r}')
+    for name in modules:
+        mod = sys.modules.get(name)
+        for attr, v in vars(mod).items():
+            if attr.startswith('__') and attr.endswith('__'):
+                continue
+            if getattr(v, '__module__', name) != name and not isinstance(v, (list, dict, set)):
+                continue  # imported from elsewhere
+            what = _is_cache_object(v) if callable(v) or not isinstance(v, (list, dict, set)) else None
+            if what:
+                out.append(f'module {name}: {attr}: {what}')
+            elif isinstance(v, (list, dict, set)) and attr != '__all__':
+                out.append(f'module {name}: {attr}: mutable module-level {type(v).__name__}')
+    return out
+
+
+# ------------------------------------------------------------------------------------------------
+# Python-level conversions of traced fields (fail closed)
+#
+# Model.PytreeReg.model_uses classifies the array fields as value-level (UValue / the integer arrays of
+# UIndex): "only as numbers inside array arithmetic".  Under a filtering jit those leaves are tracers,
+# so int() / float() / bool() / .item() / numpy functions / `if` on them raise - while eager application
+# and a jit over a closure (concrete leaves) still work.  The scan follows mv / as_matrix / __call__
+# through `self.<method>` references and flags such conversions of expressions derived from the array
+# fields (shape / dtype / ndim / size, isinstance and len are shape-level and allowed).
+
+SAFE_ATTRS = {'shape', 'ndim', 'dtype', 'size', 'nbytes', 'itemsize', 'weak_type', 'aval', 'sharding'}
+SAFE_CALLS = {'isinstance', 'len', 'type', 'is_leaf', 'hasattr', 'callable', 'id', 'issubclass'}
+CONV_CALLS = {'int', 'float', 'bool', 'complex', 'range', 'hash', 'str', 'repr', 'format'}
+CONV_METHODS = {'item', 'tolist', 'tobytes', '__index__', '__int__', '__float__', '__bool__', '__complex__', '__array__'}
+TRACED_KINDS = {'KArray', 'KScalar', 'KBoolArray', 'KIndexTuple'}
+ENTRY_POINTS = ('mv', 'as_matrix', '__call__')
+
+
+def _host_module_aliases(mod) -> set[str]:
+    """Names bound in the module to numpy / math / builtins-like host libraries."""
+    out = set()
+    for name, v in vars(mod).items():
+        if inspect.ismodule(v) and v.__name__.split('.')[0] in ('numpy', 'math', 'scipy', 'operator'):
+            out.add(name)
+    return out
+
+
+def conversion_scan(ops, field_info) -> list[str]:
+    array_fields_of = {
+        c.__name__: {n for n, st, k in field_info.get(c.__name__, []) if not st and k in TRACED_KINDS} for c in ops
+    }
+    all_array_names = set().union(*array_fields_of.values()) if array_fields_of else set()
+    all_array_names |= {n.lstrip('_') for n in all_array_names}  # property aliases (diagonal -> _diagonal)
+    out: list[str] = []
+    done = set()
+    for c in ops:
+        own = array_fields_of[c.__name__] | {n.lstrip('_') for n in array_fields_of[c.__name__]}
+        opfields = {n for n, st, k in field_info.get(c.__name__, []) if k in ('KOperator', 'KOperators')}
+        chain = [k for k in c.__mro__ if is_furax(k)]
+
+        def find(name):
+            for k in chain:
+                v = k.__dict__.get(name)
+                if v is not None:
+                    f = _unwrap_descriptor(v)
+                    if inspect.isfunction(f):
+                        return k, f
+            return None
+
+        todo, reach = [e for e in ENTRY_POINTS], []
+        while todo:
+            name = todo.pop()
+            hit = find(name)
+            if hit is None or (hit[0], name) in [(a, b) for a, b, _ in reach]:
+                continue
+            k, f = hit
+            try:
+                fn = ast.parse(textwrap.dedent(inspect.getsource(f))).body[0]
+            except (OSError, TypeError, SyntaxError) as e:
+                raise Tie(f'{k.__name__}.{name}: no source for the conversion scan: {e}')
+            reach.append((k, name, fn))
+            for n in ast.walk(fn):
+                a = is_self_attr(n)
+                if a is not None and a not in ('__class__',):
+                    todo.append(a)
+        for k, name, fn in reach:
+            key = (k.__name__, name, tuple(sorted(own)), tuple(sorted(opfields)))
+            if key in done:
+                continue
+            done.add(key)
+            host = _host_module_aliases(sys.modules[k.__module__])
+            tainted_names = {a.arg for a in fn.args.args + fn.args.kwonlyargs if a.arg in own}
+
+            def tainted(n) -> bool:
+                if isinstance(n, ast.Attribute):
+                    if n.attr in SAFE_ATTRS:
+                        return False
+                    a = is_self_attr(n)
+                    if a is not None:
+                        return a in own
+                    base = n.value
+                    if is_self_attr(base) in opfields and n.attr in all_array_names:
+                        return True
+                    return tainted(base)
+                if isinstance(n, ast.Call):
+                    f = n.func
+                    if isinstance(f, ast.Name) and f.id in SAFE_CALLS:
+                        return False
+                    return any(tainted(ch) for ch in ast.iter_child_nodes(n))
+                if isinstance(n, ast.Name):
+                    return n.id in tainted_names
+                if isinstance(n, (ast.Lambda, ast.FunctionDef)):
+                    return False
+                return any(tainted(ch) for ch in ast.iter_child_nodes(n))
+
+            def names_of(t):
+                return [x.id for x in ast.walk(t) if isinstance(x, ast.Name)]
+
+            changed = True
+            while changed:
+                changed = False
+                for n in ast.walk(fn):
+                    src, tgt = None, []
+                    if isinstance(n, ast.Assign):
+                        src, tgt = n.value, [x for t in n.targets for x in names_of(t)]
+                    elif isinstance(n, (ast.AnnAssign, ast.AugAssign)) and n.value is not None:
+                        src, tgt = n.value, names_of(n.target)
+                    elif isinstance(n, ast.NamedExpr):
+                        src, tgt = n.value, names_of(n.target)
+                    elif isinstance(n, (ast.For, ast.comprehension)):
+                        src, tgt = n.iter, names_of(n.target)
+                    if src is not None and tainted(src):
+                        for x in tgt:
+                            if x not in tainted_names:
+                                tainted_names.add(x)
+                                changed = True
+
+            def test_tainted(t) -> bool:
+                if isinstance(t, ast.BoolOp):
+                    return any(test_tainted(v) for v in t.values)
+                if isinstance(t, ast.UnaryOp) and isinstance(t.op, ast.Not):
+                    return test_tainted(t.operand)
+                if isinstance(t, ast.Compare) and all(isinstance(o, (ast.Is, ast.IsNot)) for o in t.ops):
+                    return False
+                return tainted(t)
+
+            where = f'{c.__name__}: {k.__name__}.{name}'
+            for n in ast.walk(fn):
+                if isinstance(n, ast.Call):
+                    f = n.func
+                    args = list(n.args) + [kw.value for kw in n.keywords]
+                    if isinstance(f, ast.Name) and f.id in CONV_CALLS and any(tainted(a) for a in args):
+                        out.append(f'{where}: Python-level conversion of a traced field: {ast.unparse(n)[:80]!r}')
+                    elif isinstance(f, ast.Attribute) and f.attr in CONV_METHODS and tainted(f.value):
+                        out.append(f'{where}: Python-level conversion of a traced field: {ast.unparse(n)[:80]!r}')
+                    elif isinstance(f, ast.Attribute) and isinstance(f.value, ast.Name) and f.value.id in host and any(tainted(a) for a in args):
+                        out.append(f'{where}: host-library call on a traced field: {ast.unparse(n)[:80]!r}')
+                elif isinstance(n, (ast.If, ast.While, ast.IfExp, ast.Assert)) and test_tainted(n.test):
+                    out.append(f'{where}: Python control flow on the VALUE of a traced field: {ast.unparse(n.test)[:80]!r}')
+                elif isinstance(n, ast.comprehension) and any(test_tainted(t) for t in n.ifs):
+                    out.append(f'{where}: Python control flow on the VALUE of a traced field: {ast.unparse(n)[:80]!r}')
+    return sorted(set(out))
+
+
 def generate(gen_dir: Path) -> dict:
     import_all()
     objs = Objects()
@@ -520,7 +764,11 @@ def generate(gen_dir: Path) -> dict:
     gen_dir.mkdir(parents=True, exist_ok=True)
     (gen_dir / 'PytreeReg.v').write_text(t1)
     (gen_dir / 'FieldTable.v').write_text(t2)
-    return {'registered': reg_info, 'unregistered': unregistered, 'fields': field_info, 'objects': objs.by_id, 'text': t1 + t2}
+    ops = all_operator_classes()
+    return {
+        'registered': reg_info, 'unregistered': unregistered, 'fields': field_info, 'objects': objs.by_id, 'text': t1 + t2,
+        'hidden_state': hidden_state_scan(ops), 'conversions': conversion_scan(ops, field_info),
+    }
 
 
 if __name__ == '__main__':
